@@ -24,4 +24,24 @@ Rep(t, n)       == <<"rep", t, n>>                 \* t repeated and cut to exac
 Int32BE(i)      == <<"lit", <<(i \div 16777216) % 256, (i \div 65536) % 256, (i \div 256) % 256, i % 256>>>>
 ByteAt(t, i)    == <<"byteat", t, i>>              \* data dependent: the i-th byte (0-based) as a number
 Name(prefix, i) == prefix \o ToString(i)
+\* ---- additions for the algorithm layer (spec/algo) ----
+Str(text)       == <<"str", text>>                 \* the ASCII bytes of a literal text
+Dec(n)          == <<"str", ToString(n)>>          \* decimal rendering of a number
+RepDyn(t, base, d) == <<"repdyn", t, base, d>>     \* t repeated (base + first byte of d) times - data dependent
+TakeLen(t, u)   == <<"takelen", t, u>>             \* the first len(u) bytes of t
+Hex(t)          == <<"hex", t>>                    \* lower-case hexadecimal
+UpperHex(t)     == <<"upperhex", t>>
+Upper(t)        == <<"upper", t>>                  \* ASCII upper-casing
+Lower(t)        == <<"lower", t>>
+Utf16le(t)      == <<"utf16le", t>>                \* UTF-8 text re-encoded as UTF-16-LE
+B64(t)          == <<"b64", t>>                    \* RFC 4648 base64 with padding
+B64NoPad(t)     == <<"b64nopad", t>>               \* RFC 4648 base64 without the padding
+AB64(t)         == <<"ab64", t>>                   \* "adapted base64": '.' for '+', no padding
+\* crypt(3)'s radix-64: for each <<i2, i1, i0, n>> the value byte[i2]<<16 | byte[i1]<<8 | byte[i0] (index -1 = zero, 0-based)
+\* is written as n characters of "./0-9A-Za-z", least significant 6 bits first
+H64Groups(t, groups) == <<"h64groups", t, groups>>
+Hmac3(alg, key, msg) == <<"hmac", alg, key, msg>>                   \* primitive symbol: HMAC (RFC 2104; its structure is C11's subject)
+Pbkdf2(alg, pw, salt, rounds, n) == <<"pbkdf2", alg, pw, salt, rounds, n>>   \* primitive symbol: PBKDF2-HMAC (C11)
+Scrypt(pw, salt, N, r, p, n) == <<"scrypt", pw, salt, N, r, p, n>>  \* primitive symbol: scrypt (C11)
+BcryptCore(ident, pw, salt22, cost) == <<"bcrypt", ident, pw, salt22, cost>>  \* primitive symbol: the bcrypt core (31 digest characters)
 =============================================================================
